@@ -47,6 +47,8 @@ deriving DecidableEq, Repr
 inductive RemoteOut where
   | ok (res idx : Nat)
   | unauthorized                -- an error whose text is exactly "unauthorized"
+  | notLeader                   -- an error whose text is "not leader": the node forwarded to is no longer
+                                -- leader. It is NOT the sentinel store.ErrNotLeader (it crossed the wire as text)
   | err (e : Nat)
 deriving DecidableEq, Repr
 
@@ -77,6 +79,7 @@ inductive Result where
   | errLeaderNotFound
   | errAddr (e : Nat)
   | errUnauthorized
+  | errRemoteNotLeader           -- the remote node's "not leader", handed to the caller as an ordinary error
   | errRemote (e : Nat)
 deriving DecidableEq, Repr
 
@@ -103,23 +106,30 @@ def run (i : Input) : List Call × Result :=
         match i.remoteOut with
         | .ok res idx => (c2, .forwarded res idx a)
         | .unauthorized => (c2, .errUnauthorized)
+        | .notLeader => (c2, .errRemoteNotLeader)
         | .err e => (c2, .errRemote e)
 
 /-- the HTTP layer on top: `noForward = qp.Redirect()`, and ErrNotLeader is answered
 with a redirect to the leader's API address (503 when it is unknown) -/
 inductive HttpOut where
-  | redirect301 | unavailable503 | unauthorized401 | body
+  | redirect301 | unavailable503 | unauthorized401
+  | body          -- a response with a body: results, or an error message
+  | nothing       -- the handler returns without writing anything (200, empty body)
 deriving DecidableEq, Repr
 
-def httpOut (r : Result) (leaderAPIKnown : Bool) : HttpOut :=
+/-- `redirectRequested` is the request's `redirect` flag: `DoRedirect` writes a response only
+when it is set; the handlers ignore its result and return. -/
+def httpOut (r : Result) (redirectRequested leaderAPIKnown : Bool) : HttpOut :=
   match r with
-  | .errNotLeader => if leaderAPIKnown then .redirect301 else .unavailable503
+  | .errNotLeader =>
+    if !redirectRequested then .nothing
+    else if leaderAPIKnown then .redirect301 else .unavailable503
   | .errLeaderNotFound => .unavailable503
   | .errUnauthorized => .unauthorized401
   | _ => .body
 
 /-! ## line protocol
-`proxy <kind> <local: ok|nl|err> <noForward 0|1> <addr: err|empty|x<hex>> <remote: ok|unauth|err> <creds 0|1> <retries>`
+`proxy <kind> <local: ok|nl|err> <noForward 0|1> <addr: err|empty|x<hex>> <remote: ok|unauth|nl|err> <creds 0|1> <retries>`
 → `calls=<c,c,…> result=<…>`
 -/
 structure DState where
@@ -149,6 +159,7 @@ def resultStr : Result → String
   | .errLeaderNotFound => "err-leader-not-found"
   | .errAddr _ => "err-addr"
   | .errUnauthorized => "err-unauthorized"
+  | .errRemoteNotLeader => "err-remote-not-leader"
   | .errRemote _ => "err-remote"
 
 def step (d : DState) (line : String) : DState × String :=
@@ -162,7 +173,8 @@ def step (d : DState) (line : String) : DState × String :=
         | "err" => some (.err 4) | "empty" => some .empty
         | t => (tokString t).map .addr
       let ro : Option RemoteOut := match r with
-        | "ok" => some (.ok 5 6) | "unauth" => some .unauthorized | "err" => some (.err 7) | _ => none
+        | "ok" => some (.ok 5 6) | "unauth" => some .unauthorized | "nl" => some .notLeader
+        | "err" => some (.err 7) | _ => none
       match lo, ao, ro with
       | some lo, some ao, some ro =>
         if (nf != "0" && nf != "1") || (c != "0" && c != "1") then (d, "bad-op") else
